@@ -280,6 +280,36 @@ def bstr_method(ex, c, args):
             while lo < hi and is_ws(bs[lo]):
                 lo += 1
         return sub(base, ("sub", lo, hi))
+    if m in ("trim_end_matches", "trim_start_matches"):
+        pat = args[1]
+        # decode the characters (with their byte spans), then peel from the chosen end
+        spans = []
+        p = 0
+        while p < n:
+            ch, w = decode_char(ex, bs, p)
+            spans.append((p, p + w, ch))
+            p += w
+
+        def hit(ch):
+            pv = rda(pat)
+            if type(pv) in (Closure, FnItem):
+                r = ex.call_value(pat, [ch])
+                return ex.branch(r, "trim-pat")
+            if isinstance(pv, int):
+                return ch == pv if isinstance(ch, int) else ex.branch(ch == pv, "trim-pat")
+            raise Unmodelled("trim pattern %r" % (pv,))
+        lo, hi = 0, len(spans)
+        if m == "trim_end_matches":
+            while hi > lo and hit(spans[hi - 1][2]):
+                hi -= 1
+        else:
+            while lo < hi and hit(spans[lo][2]):
+                lo += 1
+        a_ = spans[lo][0] if lo < len(spans) else n
+        b_ = spans[hi - 1][1] if hi > 0 else 0
+        if hi <= lo:
+            a_ = b_ = (spans[lo][0] if lo < len(spans) else n)
+        return sub(base, ("sub", a_, b_))
     if m == "is_char_boundary":
         p = a[0]
         if p == 0 or p == n:
@@ -317,9 +347,25 @@ def bstr_method(ex, c, args):
     raise Unmodelled("str::%s on a byte string" % m)
 
 
+CHAR_CLASSES = {
+    "is_ascii": [(0x00, 0x7F)], "is_ascii_graphic": [(0x21, 0x7E)], "is_ascii_digit": [(0x30, 0x39)],
+    "is_ascii_uppercase": [(0x41, 0x5A)], "is_ascii_lowercase": [(0x61, 0x7A)], "is_ascii_alphabetic": [(0x41, 0x5A), (0x61, 0x7A)],
+    "is_ascii_alphanumeric": [(0x30, 0x39), (0x41, 0x5A), (0x61, 0x7A)], "is_ascii_whitespace": [(0x20, 0x20), (0x09, 0x0A), (0x0C, 0x0D)],
+    "is_ascii_punctuation": [(0x21, 0x2F), (0x3A, 0x40), (0x5B, 0x60), (0x7B, 0x7E)], "is_ascii_control": [(0x00, 0x1F), (0x7F, 0x7F)],
+}
+
+
+def sym_char_class(ex, method, ch):
+    rng = CHAR_CLASSES.get(method)
+    if rng is None:
+        raise Unmodelled("char::%s on a symbolic char" % method)
+    return ex.branch(z3.Or(*[z3.And(z3.UGE(ch, a), z3.ULE(ch, b)) for a, b in rng]), "charclass")
+
+
 def install_hooks(ex):
     """hooks the generic models consult for byte strings"""
     ex.bstr_method = bstr_method
+    ex.sym_char_class = sym_char_class
     def slice_check(ex_, v, a, b):
         # slicing a str panics when a or b is not a char boundary: a boundary is the start of a
         # sequence, i.e. the byte there is not a continuation byte
